@@ -241,7 +241,8 @@ class HistoryGen:
         self.eg = ExprGen(r, gen_vars, profile.get("ops_allowed"))
         self.eg_approx = ExprGen(r, gen_vars, profile.get("approx_ops_allowed", profile.get("ops_allowed")))
         self.eg_approx.simple = bool(profile.get("approx_simple_constraints"))
-        self.dry = Machine({"config": {"vars": self.varlist}, "ops": []}, None)
+        self.ref_kind = profile.get("ref", "enum")
+        self.dry = Machine({"config": {"vars": self.varlist, "ref": self.ref_kind}, "ops": []}, None)
         self.ops = []
         self.recent = []  # recently used query expressions (re-query bias)
         self.recent_cs = []
@@ -713,6 +714,7 @@ class HistoryGen:
         p = self.p
         return {
             "vars": self.varlist,
+            "ref": self.ref_kind,
             "reuse": r.chance(p.get("reuse_pct", 25)),
             "lru": r.choice(p.get("lru_sizes", [4, 16, 64, 10000, 10000])),
             "salt": derive(self.seed, "salt") & 0xFFFFFFFF,
@@ -803,6 +805,7 @@ FAULTABLE = {"sat", "eval", "batch_eval", "min", "max", "solution", "unsat_core"
 
 
 ALL_EXACT = [("Solver", 4), ("SolverCacheless", 2), ("SolverComposite", 3), ("SolverReplacement", 2), ("SolverHybrid", 2)]
+ALL_EXACT_LIST = ALL_EXACT
 FLAG_SHAPES = [
     [["a", 3], ["b", 3], ["f", 2]],
     [["a", 2], ["b", 2], ["c", 2], ["f", 2]],
@@ -824,7 +827,53 @@ APPROX_OPS = {"add", "sub", "and", "or", "xor", "extract", "concat", "zext", "se
 # the transfer-function / balancer unsoundness that C21, C24 and C25 describe and that is recorded under known findings)
 APPROX_CORE_OPS = {"add", "sub", "or", "xor", "ite"}
 
+# wide alphabets: no multiplication / division (Z3 needs seconds on 64..130-bit instances, which would turn runs into
+# wall-clock timeouts) - everything else of the spec language
+WIDE_OPS = {"add", "sub", "and", "or", "xor", "not", "neg", "shl", "lshr", "ashr", "extract", "concat", "zext", "sext", "ite",
+            "bite"}
+WIDE_SHAPES = [
+    [["a", 32], ["b", 32]],
+    [["a", 64]],
+    [["a", 64], ["b", 8]],
+    [["a", 65], ["b", 65]],
+    [["a", 130]],
+    [["a", 16], ["b", 16], ["c", 16]],
+    [["a", 33], ["p", 0]],
+    [["a", 128], ["b", 64]],
+]
+
 PROFILES = {
+    # wide bit-vectors: the enumeration reference is replaced by an independent Z3 (DESIGN 3.3)
+    "C11wide": {
+        "frontends": [("Solver", 6), ("SolverCacheless", 2)],
+        "var_shapes": WIDE_SHAPES,
+        "ops_allowed": WIDE_OPS,
+        "ref": "z3",
+        "length": (3, 24),
+        "weights": {"probe": 4, "forget": 1},
+        "keep_sat_pct": 0,
+    },
+    "C12wide": {
+        "frontends": [("SolverComposite", 1)],
+        "var_shapes": WIDE_SHAPES,
+        "ops_allowed": WIDE_OPS,
+        "ref": "z3",
+        "length": (3, 24),
+        "weights": {"branch": 8, "simplify": 6, "probe": 4},
+        "keep_sat_pct": 0,
+    },
+    "C14wide": {
+        "frontends": ALL_EXACT_LIST,
+        "var_shapes": WIDE_SHAPES,
+        "ops_allowed": WIDE_OPS,
+        "ref": "z3",
+        "length": (4, 24),
+        "weights": {"branch": 14, "downsize": 4, "simplify": 6, "probe": 4},
+        "never_swarm_out": ("branch",),
+        "echo_pct": 30,
+        "keep_sat_pct": 0,
+        "max_handles": 5,
+    },
     "C11": {
         "frontends": [("Solver", 6), ("SolverCacheless", 2)],
         "length": (3, 40),
